@@ -28,6 +28,7 @@ var drainScenarios = []termScenario{
 	{name: "tgp600-grace300+nil", tgp: dur(600 * time.Second), pods: []termPod{{name: "a", grace: i64(300), pdb: "blocked"}, {name: "b", pdb: "two"}}, first: "nodeclaim"},
 	{name: "tgp60-already-terminating", tgp: dur(60 * time.Second), pods: []termPod{{name: "a", terminating: true, grace: i64(300)}, {name: "b", grace: i64(30)}}, first: "nodeclaim"},
 	{name: "pdb-blocked-lower-tier", pods: []termPod{{name: "a", pdb: "blocked"}, {name: "d", daemon: true}}, first: "node"},
+	{name: "tgp300-slow-pods-pdb", tgp: dur(300 * time.Second), slowPods: true, pods: []termPod{{name: "a", pdb: "blocked", grace: i64(120)}, {name: "b", grace: i64(30)}}, first: "nodeclaim"},
 	{name: "tgp60-tiers-grace", tgp: dur(60 * time.Second), pods: []termPod{{name: "a", grace: i64(20)}, {name: "d", daemon: true, grace: i64(40)}, {name: "c", critical: true, daemon: true, grace: i64(70)}}, first: "nodeclaim"},
 }
 
@@ -245,18 +246,19 @@ func init() {
 		if r.Tier == "thorough" {
 			bound = 2
 		}
-		r.Rule = fmt.Sprintf("%d drain scenarios (priority/owner tiers, do-not-disrupt true / expired duration / active duration, static, tolerating, grace nil/5..300s, already terminating, PDB blocked / two PDBs, TGP none/60s/600s) are driven for %d steps through the real node-termination controller, lifecycle controller and eviction queue (graceful pod deletion and PDB admission emulated by the API layer); every history with <=%d deviations from the fair default cycle is explored (any other enabled reconcile or event inserted: clock +1s/+61s/past-TGP, PDBs allow, pod finished, node NotReady, restart...). "+
+		r.Rule = fmt.Sprintf("%d drain scenarios (priority/owner tiers, do-not-disrupt true / expired duration / active duration, static, tolerating, grace nil/5..300s, already terminating, PDB blocked / two PDBs, TGP none/60s/300s/600s, pods using their whole grace period) are driven for %d steps through the real node-termination controller, lifecycle controller and eviction queue (graceful pod deletion and PDB admission emulated by the API layer); every history with <=%d deviations from the fair default cycle is explored (any other enabled reconcile or event inserted: clock +1s/+61s/past-TGP and jumps to every threshold instant — deadline, deadline minus each pod grace period, +-1s, the last half second, mid-window —, PDBs allow, pod finished, node NotReady, restart...). "+
 			"Every eviction create and pod Delete is judged at the instant it is requested. Plus a seam exploration of all operation sequences of length <=4/5 on the real eviction Queue (Add under early/late/no deadline, Reconcile, clock between the thresholds). states = distinct (scenario, history) reached; non-trivial likewise", len(drainScenarios), steps, bound)
 		r.Assumptions = []string{"interleaving is at reconcile granularity; finer preemption inside a reconcile is not explored by this check", "ordering clause judged as the statement words it: non-critical non-daemon pods before daemon and critical pods"}
 		c10QueueSeam(r)
-		enum.Run(r, int64(len(drainScenarios)), func(i int64, l *ev.Local) {
+		enum.RunEveryShard(r, int64(len(drainScenarios)), func(i int64, l *ev.Local) {
 			sc := drainScenarios[i]
-			ex := &explore.Explorer{Bound: bound, MaxExecs: 400000, Stop: r.Expired}
+			ex := &explore.Explorer{Bound: bound, MaxExecs: 400000, Stop: r.Expired, Shard: r.Shard, NShards: r.Shards}
 			ex.Exec = func(run *explore.Run) {
+				l.Mute = run.Replica
 				t := buildTerm(sc)
 				t.run(run, steps, nil, c10After)
 				l.Eval()
-				l.Traces++
+				l.Trace()
 				l.States++
 				l.Nontrivial(sc.name + "/" + hist(t))
 				var rem []string
@@ -267,13 +269,14 @@ func init() {
 				}
 				l.Outcome(sc.name + ": " + strings.Join(rem, " "))
 				for _, v := range t.viol {
-					l.Violation(v.Sig, fmt.Sprintf("%s  [scenario=%s history=%v]", v.Msg, sc.name, t.history), map[string]any{"scenario": sc.name, "choices": run.Choices(), "history": t.history, "calls": callStrings(t.w)})
+					l.Violation(v.Sig, fmt.Sprintf("%s  [scenario=%s history=%v]", v.Msg, sc.name, t.history), map[string]any{"scenario": sc.name, "choices": run.Choices(), "faults": run.Plan(), "history": t.history, "calls": callStrings(t.w)})
 				}
 				if run.Used == bound && len(t.history)%9 == 0 {
 					l.Sample(map[string]any{"scenario": sc.name, "history": t.history, "removals": rem})
 				}
 			}
 			ex.Explore()
+			noteDiverged(l, ex, "prefix")
 			l.Transitions += int64(ex.Points)
 			if ex.Capped {
 				l.Outcome("exploration-capped")
